@@ -29,6 +29,7 @@ transition labels) together with the scenario replays a run exactly.
 from __future__ import annotations
 
 import ast
+import sys
 import collections
 import inspect
 import logging
@@ -450,15 +451,74 @@ def _init_attrs(cls, methods=('__init__',)) -> set[str]:
     return out
 
 
+AUTO_FILLED: dict = {}      # 'Class.attr' -> source of the initialiser used
+
+
+def _simple_initialiser(cls, methods, name):
+    """The value `self.<name> = <expr>` gives the attribute in the live
+    source, when <expr> mentions nothing but module-level names and literals
+    (False, 0, None, [], {}, set(), Lock(), ...): an attribute the code under
+    test ADDED to a constructor can then be initialised the way the
+    constructor does it instead of stopping the check (round 4: seeded C15-4
+    added `self._idle_reported = False` and the check exited 2)."""
+    for mname in methods:
+        fn = cls.__dict__.get(mname)
+        if fn is None:
+            continue
+        tree = ast.parse(textwrap.dedent(inspect.getsource(fn)))
+        params = {a.arg for f in ast.walk(tree)
+                  if isinstance(f, ast.FunctionDef)
+                  for a in f.args.args + f.args.kwonlyargs}
+        for n in ast.walk(tree):
+            if not (isinstance(n, (ast.Assign, ast.AnnAssign))
+                    and n.value is not None):
+                continue
+            tgts = n.targets if isinstance(n, ast.Assign) else [n.target]
+            hit = any(isinstance(t, ast.Attribute)
+                      and isinstance(t.value, ast.Name)
+                      and t.value.id == 'self' and t.attr == name
+                      for t in tgts)
+            if not hit:
+                continue
+            names = {x.id for x in ast.walk(n.value)
+                     if isinstance(x, ast.Name)}
+            if names & (params | {'self'}):
+                return None
+            if any(isinstance(x, (ast.Lambda, ast.Await, ast.Yield,
+                                  ast.NamedExpr)) for x in ast.walk(n.value)):
+                return None
+            src = ast.unparse(n.value)
+            try:
+                val = eval(compile(ast.Expression(n.value), '<init>', 'eval'),
+                           dict(vars(sys.modules[cls.__module__])))
+            except Exception:
+                return None
+            return src, val
+    return None
+
+
 def _fill(obj, attrs: dict, cls_methods):
     need = set()
     for cls, methods in cls_methods:
         need |= init_attrs(cls, methods)
     missing = need - set(attrs)
-    if missing:
+    still = []
+    for name in sorted(missing):
+        got = None
+        for cls, methods in cls_methods:
+            got = _simple_initialiser(cls, methods, name)
+            if got:
+                break
+        if got:
+            setattr(obj, name, got[1])
+            AUTO_FILLED[f'{type(obj).__name__}.{name}'] = got[0]
+        else:
+            still.append(name)
+    if still:
         raise RuntimeError(
-            f'harness does not initialise {sorted(missing)} of '
-            f'{type(obj).__name__} (new attribute in __init__?)')
+            f'harness does not initialise {sorted(still)} of '
+            f'{type(obj).__name__} (new attribute in __init__ whose '
+            f'initialiser is not a self-contained expression)')
     for k, v in attrs.items():
         setattr(obj, k, v)
 
